@@ -41,9 +41,11 @@ package response
 //@   loop 2 decreases maxChunkSizeCharLen + 1 - chunkSizeLen
 
 //@ func (*NetconfResponse).record1dot1 [C02]
-//@   modifies r.Result, r.Failed, parseErr11, payload11
+//@   modifies r.Result, r.Failed, r.ErrorMessages, r.WarningErrorMessages, parseErr11, payload11, alloc()
 //@   ensures #failed-on-parse-error parseErr11 ==> r.Failed != nil
-//@   ensures #no-parse-error !parseErr11 ==> r.Failed == old(r.Failed) && r.Result == payload11
+//@   ensures #result-is-payload !parseErr11 ==> r.Result == payload11
+//@   ensures #failed-on-payload-error !parseErr11 && containsAnyB(payload11, r.FailedWhenContains) ==> r.Failed != nil
+//@   ensures #keeps-otherwise !parseErr11 && !containsAnyB(payload11, r.FailedWhenContains) ==> r.Failed == old(r.Failed)
 
 //@ func (*NetconfResponse).record1dot0 [C02]
 //@   modifies r.Result
@@ -87,3 +89,29 @@ package response
 //@   ensures #wf multiWF(mr)
 //@   ensures #failed-kept old(mr.Failed) != nil ==> mr.Failed == old(mr.Failed)
 //@   ensures #new-error-is-fresh old(mr.Failed) == nil && mr.Failed != nil ==> fresh(as(mr.Failed, "*response.MultiOperationError"))
+
+// ---- C02 (f): failed exactly when the payload carries an rpc-error (or decoding failed) ------------------------
+
+//@ spec containsAnyB(b []byte, l [][]byte) bool := exists i int :: 0 <= i && i < len(l) && contains(b, l[i])
+
+//@ func (*NetconfResponse).recordFailed [C02]
+//@   modifies r.Failed, r.ErrorMessages, r.WarningErrorMessages, alloc()
+//@   ensures #marks-iff-contains containsAnyB(b, r.FailedWhenContains) ==> r.Failed != nil
+//@   ensures #keeps-otherwise !containsAnyB(b, r.FailedWhenContains) ==> r.Failed == old(r.Failed)
+
+//@ func NewNetconfResponse [C02 C03]
+//@   modifies alloc()
+//@   ensures #fresh fresh(result) && result.Failed == nil && result.Result == ""
+//@   ensures #inputs result.Input == input && result.FramedInput == framedInput && result.NetconfVersion == version && result.Host == host && result.Port == port
+//@   ensures #markers result.FailedWhenContains === strs("<rpc-error>", "<rpc-errors>", "</rpc-error>", "</rpc-errors>", "<nc:rpc-error>", "</nc:rpc-error>")
+
+//@ func (*NetconfResponse).Record [C02]
+//@   requires r.Failed == nil
+//@   modifies r.EndTime, r.ElapsedTime, r.RawResult, r.Result, r.Failed, r.ErrorMessages, r.WarningErrorMessages, parseErr11, payload11, alloc()
+//@   ensures #raw r.RawResult == b
+//@   ensures #result-1.0 r.NetconfVersion == "1.0" ==> r.Result == trimSpace(trimSuffix(trimSpace(trimPrefix(b, xmlHeader)), v1Dot0Delim))
+//@   ensures #failed-1.0 r.NetconfVersion == "1.0" ==> ((r.Failed != nil) <==> containsAnyB(b, r.FailedWhenContains))
+//@   ensures #result-1.1 r.NetconfVersion == "1.1" && !parseErr11 ==> r.Result == payload11
+//@   ensures #failed-on-parse-error-1.1 r.NetconfVersion == "1.1" && parseErr11 ==> r.Failed != nil
+//@   ensures #failed-on-payload-error-1.1 r.NetconfVersion == "1.1" && !parseErr11 && containsAnyB(payload11, r.FailedWhenContains) ==> r.Failed != nil
+//@   ensures #not-failed-otherwise-1.1 r.NetconfVersion == "1.1" && !parseErr11 && !containsAnyB(payload11, r.FailedWhenContains) && !containsAnyB(b, r.FailedWhenContains) ==> r.Failed == nil
